@@ -149,6 +149,11 @@ def check(case):
     nontrivial_hits = 0
     phases_seen = set()
 
+    def first_at_start(comp, fired_entry):
+        # fired_entry = (component, overall index, phase, x); first evaluation of this component?
+        xarg = np.asarray(fired_entry[3], dtype=float)
+        return fired_entry[4] == 0 and xarg.shape == x0a.shape and np.array_equal(xarg, x0a) if len(fired_entry) > 4 else False
+
     def positions(name, count):
         if count <= 0:
             return []
@@ -164,6 +169,11 @@ def check(case):
         if not fired:
             return None
         phase, tidx = fired[0][2]
+        # "a failure at the starting point": the first evaluation of every component happens at the
+        # starting point (checked: its argument is the transformed x0), whatever the solver is doing
+        # at that moment -- it must be reported as the initial-point error, not handled as a failed step
+        if comp in COMPONENTS and fired[0][1] is not None and len(fired[0]) > 3 and first_at_start(comp, fired[0]):
+            phase = "initial"
         phases_seen.add(phase)
 
         def V(clause, msg):
